@@ -50,7 +50,10 @@ def sql_of(shape, counter=None):
         return "SELECT %s.id AS id, %s.a AS a FROM (%s) AS %s %s JOIN (%s) AS %s ON %s.id = %s.id" % (
             l, r, sql_of(shape[1], counter), l, "LEFT" if k == "ljoin" else "", sql_of(shape[2], counter), r, l, r)
     if k == "union":
-        return "SELECT id, a FROM (%s) AS %s UNION SELECT id, a FROM (%s) AS %s" % (sql_of(shape[1], counter), al(), sql_of(shape[2], counter), al())
+        # operands through CTEs: a derived table inside an operand of a set operation makes the SQL front end panic
+        # (visitor.rs `Visited::get(..).unwrap()`; reported by C18's pipeline sweep), which used to drop every union shape
+        l, r = al(), al()
+        return "WITH %s AS (%s), %s AS (%s) SELECT id, a FROM %s UNION SELECT id, a FROM %s" % (l, sql_of(shape[1], counter), r, sql_of(shape[2], counter), l, r)
     raise ValueError(k)
 
 
